@@ -48,6 +48,22 @@ def znot(x):
     return z3.Not(x)
 
 
+# --- IEEE infinities (opt-in, per job).  Two free real constants stand for +inf / -inf; in "inf mode" an input cell may take these
+# values (assumed: NINF <= every input value <= PINF), is-infinite tests mean "equals one of them", and witnesses turn them into real
+# float('inf').  ARITHMETIC on them is NOT modelled (PINF + 1 != PINF): inf mode is only switched on for methods that move or test
+# values without computing on them (see C05); everywhere else the data are finite by assumption.
+PINF = z3.Real("__plus_infinity__")
+NINF = z3.Real("__minus_infinity__")
+INF_ON = [False]
+
+
+def inf_formula(c):
+    """z3: 'this cell holds +/- infinity' (FALSE outside inf mode and for non-float cells)"""
+    if not INF_ON[0] or c.kind != "f":
+        return FALSE
+    return zand(znot(c.null), zor(c.val == PINF, c.val == NINF))
+
+
 class Cell:
     __slots__ = ("null", "val", "kind", "dc", "kf", "kfs")
 
@@ -299,6 +315,11 @@ def model_value(model, c: Cell):
     if c.kind == "i":
         return v.as_long()
     if c.kind == "f":
+        if INF_ON[0]:
+            if z3.is_true(model.eval(c.val == PINF, model_completion=True)):
+                return float("inf")
+            if z3.is_true(model.eval(c.val == NINF, model_completion=True)):
+                return float("-inf")
         if z3.is_int_value(v):
             return float(v.as_long())
         if z3.is_rational_value(v):
